@@ -348,7 +348,8 @@ def verify(h, tier, keep=None):
                 checks.append('--no-' + x + '-check')
         for c in h.checks_on:
             checks.append(OPTIONAL_CHECKS.get(c, '--' + c + '-check'))
-        base = ['cbmc', b, '--object-bits', str(h.object_bits)] + checks + h.extra_cbmc
+        base = ['cbmc', b, '--object-bits', str(h.object_bits)] + checks + h.extra_cbmc + \
+            os.environ.get('VERIF_EXTRA_CBMC', '').split()
         if h.unwind is not None:
             base += ['--unwind', str(h.unwind), '--unwinding-assertions']
         for u in h.unwindset:
